@@ -1,4 +1,5 @@
 import Banyan.Model.C04
+import Banyan.Model.C04Seg
 open Banyan Banyan.FS Banyan.C04
 
 /-!
@@ -14,6 +15,9 @@ suffix, `junk<k>`, `zz<k>.snp`, `failed-parts`; ids decimal; paths joined by `/`
                                              `<ino>:<len>,...` (`-` none) + `recover` of it
   rec <entry>...                             `recover` || `recoverLegacy` of an explicit tree (entries `path/` or `path=<tok.tok..>`)
   reclegacy <entry>...                       the same with `initTSTable` as written
+  segsteps <atomic 0|1> <k>                  segment level: step list of `k` segment creations (+ table), joined by `; `
+  segrec <entry>...                          `openSegs` of an explicit tree
+  segstates <atomic 0|1> <k> <cut>           every crash outcome after `cut` steps: `K|P <tree> => <openSegs>` joined by ` ## `
 -/
 
 def pfileName (f : PFile) : String := f.fileName
@@ -170,6 +174,57 @@ def powerLine (s : St) (mask : String) (choice : List (Nat × Nat)) : String :=
   let ns := applyOps sub s.dur
   s!"{showTreeIno ns data} || {showRec (recover (resolve ns data))} || {showRec (recoverLegacy (resolve ns data))}"
 
+/-! segment level (`Model/C04Seg.lean`) -/
+
+def segShowName : C04Seg.SName → String
+  | .seg i => s!"seg{i}"
+  | .metadata => "metadata"
+  | .metadataTmp => "metadata.tmp"
+  | .shard => "shard-0"
+  | .data => "data"
+
+def segParseName (s : String) : Option C04Seg.SName :=
+  if s == "metadata" then some .metadata
+  else if s == "metadata.tmp" then some .metadataTmp
+  else if s == "shard-0" then some .shard
+  else if s == "data" then some .data
+  else if s.startsWith "seg" then (String.ofList (s.toList.drop 3)).toNat?.map C04Seg.SName.seg
+  else none
+
+def segParseEntry (s : String) : Option (C04Seg.Path × TNode) :=
+  if s.endsWith "/" then ((String.ofList (s.toList.take (s.length - 1))).splitOn "/").mapM segParseName |>.map (fun p => (p, TNode.dir))
+  else match s.splitOn "=" with
+  | [p, c] => do
+    let p' ← (p.splitOn "/").mapM segParseName
+    let c' ← parseToks c
+    pure (p', TNode.file c')
+  | _ => none
+
+def segShowPath (p : C04Seg.Path) : String := if p.isEmpty then "." else "/".intercalate (p.map segShowName)
+
+def segShowStep : C04Seg.Step → String
+  | .mkdir p => s!"mkdir {segShowPath p}"
+  | .create p => s!"create {segShowPath p}"
+  | .write p c => s!"write {segShowPath p} {showToks c}"
+  | .fsync p => s!"fsync {segShowPath p}"
+  | .close p => s!"close {segShowPath p}"
+  | .rename a b => s!"rename {segShowPath a} {segShowPath b}"
+  | .fsyncdir d => s!"fsyncdir {segShowPath d}"
+  | .unlink p => s!"unlink {segShowPath p}"
+  | .rmdir p => s!"rmdir {segShowPath p}"
+  | .link a b => s!"link {segShowPath a} {segShowPath b}"
+
+def segShowTree (t : C04Seg.Tree) : String :=
+  let es := t.map (fun kv =>
+    match kv.2 with
+    | .dir => segShowPath kv.1 ++ "/"
+    | .file c => s!"{segShowPath kv.1}={showToks c}")
+  " ".intercalate (sortStr es.eraseDups)
+
+def segShowRec : C04Seg.SegRec → String
+  | .err w => s!"ERR {w}"
+  | .ok loaded t => s!"OK {",".intercalate (loaded.map toString)} | {segShowTree t}"
+
 def handle (line : String) : String :=
   match words line with
   | "steps" :: rest =>
@@ -212,6 +267,21 @@ def handle (line : String) : String :=
     match cut.toNat?, parseDataChoice dc, parseSteps ((line.splitOn "|").getD 1 "") with
     | some k, some choice, some steps => powerLine (run ({} : St) (steps.take k)) mask choice
     | _, _, _ => "bad-op"
+  | ["segsteps", a, k] =>
+    match k.toNat? with
+    | some k => "; ".intercalate ((C04Seg.history (a == "1") k).map segShowStep)
+    | none => "bad-op"
+  | ["segstates", a, k, cut] =>
+    match k.toNat?, cut.toNat? with
+    | some k, some c =>
+      let ts := C04Seg.crashTrees (a == "1") k c
+      " ## ".intercalate ((ts.zip (List.range ts.length)).map (fun ti =>
+        s!"{if ti.2 == 0 then "K" else "P"} {segShowTree ti.1} => {segShowRec (C04Seg.openSegs ti.1)}"))
+    | _, _ => "bad-op"
+  | "segrec" :: es =>
+    match es.mapM segParseEntry with
+    | some t => segShowRec (C04Seg.openSegs t)
+    | none => "bad-op"
   | "rec" :: es =>
     match es.mapM parseEntry with
     | some t => s!"{showRec (recover t)} || {showRec (recoverLegacy t)}"
